@@ -259,17 +259,19 @@ def r2(ctx):
     # the printed row, element by element, with locals resolved (`phaseset`, `first_position`, a `row` tuple, ...)
     prs = [p_ for p_ in ctx.prog.calls_in(w.node) if u(p_.func) == "print" and any(p_ is x for l_ in loops for x in ast.walk(l_))]
     row = util.printed_shape(w.node, prs[0]) if len(prs) == 1 else None
-    keep = ("components", "haplotype", "sample", rd)
-    cells = [u(util.resolve_locals(w.node, e_[1], keep=keep)) for e_ in row] if row is not None and all(e_[0] == "one" for e_ in row) else None
+    keep = ("haplotype", rd, "numeric_id_to_name")
+    cells = [u(util.expand_single_defs(w.node, e_[1], keep=keep)) for e_ in row] if row is not None and all(e_[0] == "one" for e_ in row) else None
+    want_ps = "sample_components[numeric_id_to_name[%s.sample_id]][%s[0].position] + 1" % (rd, rd)
     if cells is None:
         ctx.ob(w.qual, "phase-set-of-first-variant-plus-1", None, w.loc(), "cannot read the row that ReadList.write prints")
     else:
-        want_ps = "components[%s[0].position] + 1" % rd
-        okps = comp is not None and want_ps in cells
-        ctx.ob(w.qual, "phase-set-of-first-variant-plus-1", okps, w.loc(prs[0]), "the row carries components[read[0].position] + 1 as phase set" if okps else "no cell of the printed row is %s: %s" % (want_ps, cells))
-    okc = comp is not None and u(comp) == "sample_components[sample]" and u(util.single_def(w.node, "sample") or ast.Constant(None)) == "numeric_id_to_name[read.sample_id]"
-    ctx.ob(w.qual, "components-of-the-reads-sample", okc, w.loc(), "components are those of the read's own sample" if okc else "components are not looked up by the read's own sample")
-    okp = cells is not None and "haplotype" in cells and any(c_.startswith("components[") for c_ in cells) and any(k.arg == "file" and u(k.value) == "self._file" for k in prs[0].keywords)
+        pcs = [c_ for c_ in cells if c_.startswith("sample_components[")]
+        okps = len(pcs) == 1 and pcs[0].endswith("][%s[0].position] + 1" % rd)
+        ctx.ob(w.qual, "phase-set-of-first-variant-plus-1", okps, w.loc(prs[0]), "the row carries components[read[0].position] + 1 as phase set" if okps else "no cell of the printed row is components[%s[0].position] + 1: %s" % (rd, cells))
+        inv = util.single_def(w.node, "numeric_id_to_name")
+        okc = len(pcs) == 1 and pcs[0].startswith("sample_components[numeric_id_to_name[%s.sample_id]][" % rd) and inv is not None and u(inv) == "numeric_sample_ids.inverse_mapping()"
+        ctx.ob(w.qual, "components-of-the-reads-sample", okc, w.loc(), "components are those of the read's own sample" if okc else "components are not looked up by the read's own sample")
+    okp = cells is not None and "haplotype" in cells and any(c_.startswith("sample_components[") for c_ in cells) and any(k.arg == "file" and u(k.value) == "self._file" for k in prs[0].keywords)
     ctx.ob(w.qual, "row-printed-to-the-list", okp, w.loc(prs[0]) if prs else w.loc(), "one row per read with its phase set and haplotype goes to the list file" if okp else "ReadList.write does not print phase set / haplotype to self._file")
     for c_ in cells or []:
         if c_.endswith(".position") or ".position +" in c_ or ".position -" in c_:
@@ -559,14 +561,45 @@ def r4(ctx):
     ctx.ob(fr.qual, "father-bit-low-mother-bit-high", okl, fr.loc(e), "father haplotype = value % 2, mother haplotype = value // 2, first the value at position1 then the one at position2" if okl else "transmission decoding is %s" % whyl)
     wr = ctx.func(PH + ".write_recombination_list")
     ok = False
+    form_a = False
     for n in walk_function(wr.node):
         if isinstance(n, ast.For) and u(n.iter) == "trios":
             body = [u(s) for s in n.body]
             mods = [s for s in n.body if isinstance(s, ast.Assign) and isinstance(s.value, ast.BinOp) and isinstance(s.value.op, ast.Mod) and u(s.value.right) == "4"]
             divs = [s for s in n.body if isinstance(s, ast.Assign) and isinstance(s.value, ast.BinOp) and isinstance(s.value.op, ast.FloorDiv) and u(s.value.right) == "4"]
+            if mods or divs:
+                form_a = True
             if mods and divs and u(mods[0].value.left) == u(divs[0].targets[0]) == u(divs[0].value.left) and n.body.index(mods[0]) < n.body.index(divs[0]):
                 ok = any(isinstance(c, ast.Call) and isinstance(c.func, ast.Attribute) and c.func.attr == "append" and ("%s.child" % u(n.target)) in u(c.func.value) and u(c.args[0]) == u(mods[0].targets[0]) for c in ast.walk(n))
-    ctx.ob(wr.qual, "two-bits-per-trio-in-trios-order", ok, wr.loc(), "the transmission value is split into base-4 digits in trios order, digit t belongs to trios[t].child" if ok else "transmission values are not decoded as `% 4` then `// 4` per trio in trios order")
+    if not ok and not form_a:
+        # second form: one pass per trio with a running digit weight 1, 4, 16, ...:  child gets (value // weight) % 4 for every value
+        ok = None
+        wcfg = ctx.cfg(wr)
+        for n in walk_function(wr.node):
+            if not (isinstance(n, ast.For) and u(n.iter) == "trios"):
+                continue
+            digs = [x for x in ast.walk(n) if isinstance(x, ast.BinOp) and isinstance(x.op, ast.Mod) and u(x.right) == "4" and isinstance(x.left, ast.BinOp) and isinstance(x.left.op, ast.FloorDiv) and isinstance(x.left.right, ast.Name)]
+            if len(digs) != 1:
+                continue
+            wname = digs[0].left.right.id
+            inits = [v_ for s_, v_ in util.assignments_to(wr.node, wname) if isinstance(v_, ast.AST)]
+            mults = [x for x in ast.walk(n) if isinstance(x, ast.AugAssign) and u(x.target) == wname]
+            stores_w = [x for x in ast.walk(wr.node) if isinstance(x, ast.Name) and x.id == wname and isinstance(x.ctx, ast.Store)]
+            st_ = util.stmt_of(digs[0])
+            # the value decoded is an element of the transmission vector, the digit goes to the list of this trio's child
+            comp = digs[0]
+            while comp is not None and not isinstance(comp, (ast.ListComp, ast.GeneratorExp, ast.For)):
+                comp = getattr(comp, "parent", None)
+            over_vec = isinstance(comp, (ast.ListComp, ast.GeneratorExp)) and len(comp.generators) == 1 and u(comp.generators[0].iter) == "transmission_vector" and u(comp.generators[0].target) == u(digs[0].left.left) and u(comp.elt) == u(digs[0]) and not comp.generators[0].ifs
+            to_child = isinstance(st_, ast.Expr) and isinstance(st_.value, ast.Call) and isinstance(st_.value.func, ast.Attribute) and st_.value.func.attr == "extend" and ("%s.child" % u(n.target)) in u(st_.value.func.value)
+            form = len(inits) == 1 and u(inits[0]) == "1" and len(mults) == 1 and isinstance(mults[0].op, ast.Mult) and u(mults[0].value) == "4" and len(stores_w) == 2 and mults[0] in n.body
+            if form and over_vec and to_child:
+                # weight is multiplied after it was used, once per trio, and the loop has no continue/break that could skip it
+                after = wcfg.find_path(wcfg.node_of(mults[0]), wcfg.node_of(st_), avoid_nodes=[wcfg.node_of(n)]) is None
+                ok = after and not util.lexical_loop_exits(n) and not any(isinstance(x, ast.Continue) for x in ast.walk(n))
+            elif form:
+                ok = False
+    ctx.ob(wr.qual, "two-bits-per-trio-in-trios-order", ok, wr.loc(), "the transmission value is split into base-4 digits in trios order, digit t belongs to trios[t].child" if ok else ("transmission values are not decoded as `% 4` then `// 4` per trio in trios order" if ok is False else "cannot read how write_recombination_list splits the transmission values into per-trio digits"))
     for p_, cells_ in util.row_writes(wr.node):
         for a in [util.resolve_locals(wr.node, e_[1]) for e_ in (cells_ or []) if e_[0] == "one"]:
             if ".position" in u(a):
